@@ -20,6 +20,10 @@ static std::vector<pp::Call> make_calls() {
   auto add = [&](const char* name, const char* group, std::function<std::string()> f) { calls.push_back({name, group, pp::guarded(f)}); };
   add("toupper(\"aBc-z\")", "toupper", [] { return toupper(std::string("aBc-z")); });
   add("tolower(\"QrS_Z\")", "tolower", [] { return tolower(std::string("QrS_Z")); });
+  add("toupper(\"xyz!q\")", "toupper", [] { return toupper(std::string("xyz!q")); });
+  add("tolower(\"ABC-d\")", "tolower", [] { return tolower(std::string("ABC-d")); });
+  add("strip_whitespace(\"\\n x y\\t\")", "strip_whitespace", [] { std::string s = "\n x y\t"; strip_whitespace(s); return s; });
+  add("escape_quotes(\"\\x01\\x7f\")", "escape_quotes", [] { return escape_quotes(std::string("\x01\x7f")); });
   add("str_replace_all(\"aXbXXc\",\"X\",\"yz\")", "str_replace_all", [] { return str_replace_all(std::string("aXbXXc"), "X", "yz"); });
   add("str_replace_all(\"aaaa\",\"aa\",\"b\")", "str_replace_all", [] { return str_replace_all(std::string("aaaa"), "aa", "b"); });
   add("split(\"a,b,,c\", ',')", "split", [] { return show_vec(split(std::string("a,b,,c"), ',')); });
@@ -44,7 +48,7 @@ static std::vector<pp::Call> make_calls() {
 VF_SECTION(concurrent_pairs, 16, 16, 300) {
   std::vector<pp::Call> calls = make_calls();
   pp::run_pairs(r, calls, r.thorough() ? 400 : 150, r.thorough() ? 150 : 0);
-  r.bound = "every unordered pair (and every call with itself) of 20 calls of the C08 string functions run concurrently: every schedule with <= 2 preemptions for same-function pairs whose calls have <= 150 (thorough 400) scheduling points (thorough: also cross pairs <= 150), <= 1 preemption otherwise; basic-block granularity of Strings.cc and the templates instantiated in the harness TU";
+  r.bound = "every unordered pair (and every call with itself) of 24 calls of the C08 string functions run concurrently: every schedule with <= 2 preemptions for same-function pairs whose calls have <= 150 (thorough 400) scheduling points (thorough: also cross pairs <= 150), <= 1 preemption otherwise; basic-block granularity of Strings.cc and the templates instantiated in the harness TU";
 }
 
 // First calls: each call with itself and with the next call of the same function (thorough: every same-function pair),
